@@ -120,6 +120,21 @@ def _mutants(rng, spec, tokens, intent):
         if dd == len(tokens):
             out.append((tokens + ["--" + o["long"]], "CannotParseArgsException", "required-value-missing"))
         out.append((tokens[:pos] + ["--%s=" % o["long"]] + tokens[pos:], "CannotParseArgsException", "required-value-empty"))
+    # a value that does not convert to the declared type (typed options of every mode, nullable or not)
+    # (a single-valued option spelled again later would override the faulty value: take one the line does not give)
+    typed = [o for o in opts if o["mode"] != "flag" and o["type"] != "string"
+             and (o["mode"] == "multi" or o["long"] not in intent["opts"])]
+    if typed:
+        o = rng.choice(typed)
+        out.append((tokens[:pos] + ["--%s=zzz" % o["long"]] + tokens[pos:], "ValueError", "value-does-not-convert"))
+    targs = [i for i, a in enumerate(args) if a["type"] != "string"]
+    if targs:
+        i = rng.choice(targs)
+        toks = [c["name"] for c in cmds] + [("zzz" if j == i else pc.value_for(rng, a["type"], a["nullable"]))
+                                            for j, a in enumerate(args[: i + 1])]
+        n_req = len([a for a in args if a["mode"] in ("required", "multi_required")])
+        if i + 1 >= n_req:
+            out.append((toks, "ValueError", "argument-does-not-convert"))
     # a required argument left out: command names + values for all but the last required argument
     n_req = len([a for a in args if a["mode"] in ("required", "multi_required")])
     if n_req >= 1:
@@ -191,7 +206,39 @@ def _oracle(case, s, l, pre):
     return pre + r if r else None
 
 
+KIND = {"string": "s", "boolean": "b", "integer": "i", "float": "f"}
+
+
+def _typed(case, r):
+    """every value of a successful result has the declared type (or is None): a text that does not convert is a
+    ValueError, never a value of another type"""
+    if "ok" not in r:
+        return None
+    cmds, args, opts = pc.spec_flat(case["spec"])
+
+    def ok(v, ty, multi):
+        if v is None:
+            return True
+        if "l" in v:
+            return multi and all(ok(x, ty, False) for x in v["l"])
+        return list(v.keys()) == [KIND[ty]]
+    for o in opts:
+        for name, v in r["ok"]["opts_set"]:
+            if name == o["long"]:
+                want = "boolean" if o["mode"] == "flag" else o["type"]
+                if not ok(v, want, o["mode"] == "multi"):
+                    return "option --%s (%s) holds %s: a value that does not convert must be a ValueError" % (name, want, v)
+    for a in args:
+        for name, v in r["ok"]["args_set"]:
+            if name == a["name"] and not ok(v, a["type"], a["mode"].startswith("multi")):
+                return "argument %s (%s) holds %s: a value that does not convert must be a ValueError" % (name, a["type"], v)
+    return None
+
+
 def _oracle1(case, s, l):
+    t = _typed(case, s) or _typed(case, l)
+    if t:
+        return t
     if "err" in s and s["err"] not in DOCUMENTED:
         return "strict parse raised %s (only the cannot-parse, no-such-option errors and ValueError are documented)" % s["err"]
     if "err" in l and l["err"] != "ValueError":
